@@ -15,6 +15,7 @@ import ast
 from .model import AnalysisError, unparse, walk_no_defs
 
 ENTRY, EXIT, RAISE = "entry", "exit", "raise_exit"
+_TOTAL_METHODS = ("acquire", "release", "notify", "notify_all", "set", "clear", "is_set")
 
 
 class Node(object):
@@ -129,6 +130,9 @@ class CFG(object):
         a = node.ast
         if a is None:
             return
+        if isinstance(a, ast.Expr) and isinstance(a.value, ast.Call) and isinstance(a.value.func, ast.Attribute) \
+                and a.value.func.attr in _TOTAL_METHODS and not a.value.args:
+            return  # lock / event primitives do not raise
         has_call = any(isinstance(x, (ast.Call, ast.Subscript))
                        for x in walk_no_defs(a)) if not isinstance(
             a, (ast.FunctionDef, ast.ClassDef)) else False
